@@ -16,9 +16,10 @@ What a theorem can carry about "zero heap allocations":
    * `fmt.Errorf` / `string(b)` on **error** paths of the integer and string readers (C19 is about success),
    * `append` into the **caller's destination** in `ReadStringBytes`, `appendRemainderOfString`,
      `unescapeStringContent` — never beyond `len(dst) + len(input)` bytes in total (`readStringBytes_size`,
-     `unescape_size`, from `Sizes.decode_len_le`: decoded content is never longer than its escaped source), which is
-     the capacity `growBytesSliceCapacity(dst, len(dst)+len(data))` reserves up front, so a destination with spare
-     capacity of at least the input length is never re-allocated,
+     `unescape_size`, from `Sizes.decode_len_le`: decoded content is never longer than its escaped source), so a
+     destination with spare capacity of at least the input length is never re-allocated (`unescapeStringContent`
+     reserves `len(dst)+len(data)` up front; `appendRemainderOfString`, since the repair of C20-F2, only up to the first
+     double quote it finds with `bytes.IndexByte` — which does not allocate — and lets `append` grow beyond that),
    * `growBytesSliceCapacity`'s own `make`/`append` (taken only when the capacity is insufficient),
    * the `prepush` growth `append(stack, make([]int, 1+top-len(stack))...)` of the four generated machines: it appends
      a positive number of elements only when the live height exceeds the slice — `stack_size`: the slice after a run
@@ -38,7 +39,7 @@ namespace RJson.C19
 def expectedReach : List String := ["DecodeBool", "DecodeFloat64", "DecodeInt", "DecodeInt32", "DecodeInt64", "DecodeUint", "DecodeUint32", "DecodeUint64", "HandleArrayValues", "HandleObjectValues", "NextToken", "NextTokenType", "ReadBool", "ReadFloat64", "ReadInt", "ReadInt32", "ReadInt64", "ReadNull", "ReadStringBytes", "ReadUint", "ReadUint32", "ReadUint64", "SkipValue", "SkipValueFast", "UnescapeStringContent", "Valid", "appendRemainderOfString", "countWhitespace", "errUnexpectedByteInString", "fp.ParseJSONFloatPrefix", "fp.atof64exact", "fp.decimal.RoundedInteger", "fp.decimal.Shift", "fp.decimal.floatBits", "fp.decimal.set", "fp.eiselLemire64", "fp.leftShift", "fp.prefixIsLessThan", "fp.readFloat", "fp.rightShift", "fp.shouldRoundUp", "fp.trim", "getu4", "growBytesSliceCapacity", "handleArrayValues", "handleObjectValues", "nullOrBust", "readBool", "readNull", "skipFloatDec", "skipFloatExp", "skipValue", "skipValueFast", "unescapeStringContent", "unescapeUnicodeChar"]
 
 /-- every construct in them that may allocate, on the current tree -/
-def expectedSites : List String := ["ReadInt | lib:fmt.Errorf", "ReadInt64 | lib:fmt.Errorf (x2)", "ReadStringBytes | append:append(buf, data[start:p]...) (x2)", "ReadStringBytes | lib:fmt.Errorf (x2)", "ReadUint | lib:fmt.Errorf", "ReadUint64 | lib:fmt.Errorf (x2)", "appendRemainderOfString | append:append(dst, '\"')", "appendRemainderOfString | append:append(dst, '/')", "appendRemainderOfString | append:append(dst, '\\\\')", "appendRemainderOfString | append:append(dst, '\\b')", "appendRemainderOfString | append:append(dst, '\\f')", "appendRemainderOfString | append:append(dst, '\\n')", "appendRemainderOfString | append:append(dst, '\\r')", "appendRemainderOfString | append:append(dst, '\\t')", "appendRemainderOfString | append:append(dst, data[segStart:p]...) (x3)", "errUnexpectedByteInString | conv:string(b)", "errUnexpectedByteInString | lib:fmt.Errorf", "growBytesSliceCapacity | append:append(slice[:cap(slice)], make([]byte, delta)...)", "growBytesSliceCapacity | make:make([]byte, delta)", "handleArrayValues | append:append(stack, make([]int, 1+top-len(stack))...) (x12)", "handleArrayValues | make:make([]int, 1+top-len(stack)) (x12)", "handleObjectValues | append:append(stack, make([]int, 1+top-len(stack))...) (x12)", "handleObjectValues | make:make([]int, 1+top-len(stack)) (x12)", "skipValue | append:append(stack, make([]int, 1+top-len(stack))...) (x10)", "skipValue | make:make([]int, 1+top-len(stack)) (x10)", "skipValueFast | append:append(stack, make([]int, 1+top-len(stack))...) (x4)", "skipValueFast | make:make([]int, 1+top-len(stack)) (x4)", "unescapeStringContent | append:append(dst, '\"')", "unescapeStringContent | append:append(dst, '/')", "unescapeStringContent | append:append(dst, '\\'')", "unescapeStringContent | append:append(dst, '\\\\')", "unescapeStringContent | append:append(dst, '\\b')", "unescapeStringContent | append:append(dst, '\\f')", "unescapeStringContent | append:append(dst, '\\n')", "unescapeStringContent | append:append(dst, '\\r')", "unescapeStringContent | append:append(dst, '\\t')", "unescapeStringContent | append:append(dst, data[segStart:p]...) (x3)"]
+def expectedSites : List String := ["ReadInt | lib:fmt.Errorf", "ReadInt64 | lib:fmt.Errorf (x2)", "ReadStringBytes | append:append(buf, data[start:p]...) (x2)", "ReadStringBytes | lib:fmt.Errorf (x2)", "ReadUint | lib:fmt.Errorf", "ReadUint64 | lib:fmt.Errorf (x2)", "appendRemainderOfString | append:append(dst, '\"')", "appendRemainderOfString | append:append(dst, '/')", "appendRemainderOfString | append:append(dst, '\\\\')", "appendRemainderOfString | append:append(dst, '\\b')", "appendRemainderOfString | append:append(dst, '\\f')", "appendRemainderOfString | append:append(dst, '\\n')", "appendRemainderOfString | append:append(dst, '\\r')", "appendRemainderOfString | append:append(dst, '\\t')", "appendRemainderOfString | append:append(dst, data[segStart:p]...) (x3)", "appendRemainderOfString | lib:bytes.IndexByte", "errUnexpectedByteInString | conv:string(b)", "errUnexpectedByteInString | lib:fmt.Errorf", "growBytesSliceCapacity | append:append(slice[:cap(slice)], make([]byte, delta)...)", "growBytesSliceCapacity | make:make([]byte, delta)", "handleArrayValues | append:append(stack, make([]int, 1+top-len(stack))...) (x12)", "handleArrayValues | make:make([]int, 1+top-len(stack)) (x12)", "handleObjectValues | append:append(stack, make([]int, 1+top-len(stack))...) (x12)", "handleObjectValues | make:make([]int, 1+top-len(stack)) (x12)", "skipValue | append:append(stack, make([]int, 1+top-len(stack))...) (x10)", "skipValue | make:make([]int, 1+top-len(stack)) (x10)", "skipValueFast | append:append(stack, make([]int, 1+top-len(stack))...) (x4)", "skipValueFast | make:make([]int, 1+top-len(stack)) (x4)", "unescapeStringContent | append:append(dst, '\"')", "unescapeStringContent | append:append(dst, '/')", "unescapeStringContent | append:append(dst, '\\'')", "unescapeStringContent | append:append(dst, '\\\\')", "unescapeStringContent | append:append(dst, '\\b')", "unescapeStringContent | append:append(dst, '\\f')", "unescapeStringContent | append:append(dst, '\\n')", "unescapeStringContent | append:append(dst, '\\r')", "unescapeStringContent | append:append(dst, '\\t')", "unescapeStringContent | append:append(dst, data[segStart:p]...) (x3)"]
 
 theorem reach_expected : Gen.Facts.zeroAllocReach = expectedReach := by decide
 theorem alloc_sites_expected : Gen.Facts.zeroAllocSites = expectedSites := by decide
